@@ -218,11 +218,13 @@ func extractC05() *lean {
 	l := newLean("C05", "NutsModel.C05.OneTime")
 	l.sb.WriteString("open Nuts.C05\n")
 
-	// ---- storage/session.go: how GetAndDelete is built
+	// ---- storage/session.go: how GetAndDelete and PutIfAbsent are built (calls on the receiver + lock calls, in source order)
 	_, sess := parseFile("storage/session.go")
-	var seq []string
-	raw := false
-	if fd := funcDecl(sess, "GetAndDelete"); fd != nil && fd.Body != nil {
+	methodCalls := func(name string) (seq []string, raw bool) {
+		fd := funcDecl(sess, name)
+		if fd == nil || fd.Body == nil {
+			return []string{"MISSING"}, false
+		}
 		ast.Inspect(fd.Body, func(n ast.Node) bool {
 			c, ok := n.(*ast.CallExpr)
 			if !ok {
@@ -236,7 +238,7 @@ func extractC05() *lean {
 			switch sel.Sel.Name {
 			case "Lock", "Unlock", "RLock", "RUnlock":
 				seq = append(seq, sel.Sel.Name)
-			case "Get", "Delete", "Set", "Put", "GetAndDelete", "GetDel":
+			case "Get", "Delete", "Set", "Put", "Exists", "GetAndDelete", "GetDel", "SetNX", "Add":
 				if strings.HasPrefix(full, "s.") {
 					seq = append(seq, sel.Sel.Name)
 					if sel.Sel.Name == "Delete" && strings.Contains(full, "underlying") {
@@ -246,9 +248,9 @@ func extractC05() *lean {
 			}
 			return true
 		})
-	} else {
-		seq = []string{"MISSING"}
+		return
 	}
+	seq, raw := methodCalls("GetAndDelete")
 	shape := ""
 	switch strings.Join(seq, ",") {
 	case "Get,Delete":
@@ -263,6 +265,20 @@ func extractC05() *lean {
 	l.def("gadCalls", "List String", leanStrList(seq), seq)
 	l.def("gadShape", "GadShape", shape, shape)
 	l.def("gadRawDelete", "Bool", fmt.Sprint(raw), raw)
+	pseq, _ := methodCalls("PutIfAbsent")
+	pshape := ""
+	switch strings.Join(pseq, ",") {
+	case "Get,Put", "Exists,Put":
+		pshape = ".getThenPut"
+	case "Lock,Unlock,Get,Put", "Lock,Unlock,Exists,Put":
+		pshape = ".locked"
+	case "SetNX", "Add":
+		pshape = ".putIfAbsent"
+	default:
+		pshape = ".unknown_" + strings.Join(pseq, "_")
+	}
+	l.def("pifCalls", "List String", leanStrList(pseq), pseq)
+	l.def("pifShape", "MarkShape", pshape, pshape)
 
 	// in-memory and redis key construction: strings.Join(append(prefixes, key), sep)
 	for _, f := range []struct{ name, file string }{{"memKeySep", "storage/session_inmemory.go"}, {"redisKeySep", "storage/session_redis.go"}} {
